@@ -1699,9 +1699,9 @@ func init() {
 			},
 			&engine.Enum[c08LongCase]{
 				Name: "insert-components-sweep",
-				Rule: "component-mode splice_insert with n components (timed: n in {0,1,2,3,5,41,42,43,60}, immediate: n in {0,1,3,245,254,255}; thorough: every n 0..70 timed, 0..255 immediate) with and without break_duration, followed by a descriptor loop whose length is swept byte by byte from 0 to 300 (one or two segmentation descriptors with the needed upid lengths), so that the number of bytes after component_count crosses 256 and splice_command_length crosses 255/256; decode and compare every getter",
+				Rule: "component-mode splice_insert with n components (timed: n in {0,1,2,3,5,41,42,43,60,169,255}, immediate: n in {0,1,3,245,254,255}; thorough: every n 0..70 timed, 0..255 immediate) with and without break_duration, followed by a descriptor loop whose length is swept byte by byte from 0 to 300 (one or two segmentation descriptors with the needed upid lengths), so that the number of bytes after component_count crosses 256 and splice_command_length crosses 255/256; decode and compare every getter",
 				Gen: func(r *engine.Run, emit func(c08LongCase)) {
-					timed := []int{0, 1, 2, 3, 5, 41, 42, 43, 60}
+					timed := []int{0, 1, 2, 3, 5, 41, 42, 43, 60, 169, 255}
 					imm := []int{0, 1, 3, 245, 254, 255}
 					if r.Thorough() {
 						timed, imm = seq(0, 70), seq(0, 255)
